@@ -15,6 +15,7 @@ namespace PGM.Public
 @[simp] theorem r_one : (Scalar.one : ℝ) = 1 := rfl
 @[simp] theorem r_zero : (Scalar.zero : ℝ) = 0 := rfl
 @[simp] theorem r_gt0 (x : ℝ) : Scalar.gt0 x = decide (0 < x) := rfl
+@[simp] theorem r_le0 (x : ℝ) : Scalar.le0 x = decide (x ≤ 0) := rfl
 @[simp] theorem r_exp_fun : (Scalar.exp : ℝ → ℝ) = Real.exp := rfl
 @[simp] theorem r_sub_fun : (Scalar.sub : ℝ → ℝ → ℝ) = fun x y => x - y := by
   funext x y; simp
@@ -117,18 +118,18 @@ theorem emdStep_eq (lossgrad : List ℝ → ℝ × List ℝ) (total : ℝ) (P0 :
           if s.begun then s.alpha else s.alpha * 2, s.begun⟩
       else ⟨s.logP, s.loss, center s.dL, s.alpha * (1 / 2), true⟩ := by
   unfold emdStep
-  simp only [r_add, r_mul, r_div, r_sub, r_exp_fun, r_log, r_lse, r_one, r_gt0, r_sub_fun]
+  simp only [r_add, r_mul, r_div, r_sub, r_exp_fun, r_log, r_lse, r_one, r_le0, r_sub_fun]
   have h2 : (1 : ℝ) / (1 + 1) = 1 / 2 := by norm_num
   have h3 : (1 : ℝ) + 1 = 2 := by norm_num
   rw [h2, h3]
   by_cases h : thr total P0 s ≤ s.loss - (lossgrad (Qpt total s)).1
   · rw [if_pos h, if_pos]
     · rfl
-    · simp only [Bool.not_eq_true', decide_eq_false_iff_not, not_lt]
+    · simp only [decide_eq_true_eq]
       have : thr total P0 s - (s.loss - (lossgrad (Qpt total s)).1) ≤ 0 := by linarith
       exact this
   · rw [if_neg h, if_neg]
-    simp only [Bool.not_eq_true', decide_eq_false_iff_not, not_lt, not_le]
+    simp only [decide_eq_true_eq, not_le]
     have : 0 < thr total P0 s - (s.loss - (lossgrad (Qpt total s)).1) := by linarith
     exact this
 
@@ -245,14 +246,14 @@ theorem logQ_sum (total : ℝ) (ht : 0 < total) (s : EmdState ℝ) (n : Nat) (hn
   rw [sum_exp_shift, Real.exp_sub, Real.exp_log ht, Real.exp_log hpos]
   field_simp
 
-theorem emdStep_inv (lossgrad : List ℝ → ℝ × List ℝ) (hg : ∀ w, (lossgrad w).2.length = w.length)
-    (total : ℝ) (ht : 0 < total) (P0 : List ℝ) (n : Nat) (hn : 0 < n)
+theorem emdStep_inv (lossgrad : List ℝ → ℝ × List ℝ) (n : Nat)
+    (hg : ∀ w, w.length = n → (lossgrad w).2.length = n) (total : ℝ) (ht : 0 < total) (P0 : List ℝ) (hn : 0 < n)
     (s : EmdState ℝ) (h : Inv n total s) : Inv n total (emdStep lossgrad total P0 s) := by
   obtain ⟨h1, h2, h3⟩ := h
   rcases emdStep_cases lossgrad total P0 s with ⟨e1, _, e3, _⟩ | ⟨e1, _, e3, _⟩
   · refine ⟨?_, ?_, ?_⟩
     · rw [e1]; exact logQ_length total s n h1 h2
-    · rw [e3, hg]; exact Qpt_length total s n h1 h2
+    · rw [e3]; exact hg _ (Qpt_length total s n h1 h2)
     · rw [e1]; exact logQ_sum total ht s n hn h1 h2
   · refine ⟨?_, ?_, ?_⟩
     · rw [e1]; exact h1
